@@ -81,6 +81,13 @@ def run_case(case):
         p = nbdime.patch(copy.deepcopy(a), d)
         if canon(plain(p)) != cb:
             out.fail("roundtrip", "patched_differs_from_target", _first_difference(plain(p), b))
+        else:
+            # the same diff object applied a second time, and after a JSON round trip, gives the same document
+            p2 = nbdime.patch(copy.deepcopy(a), d)
+            if canon(plain(p2)) != cb:
+                out.fail("roundtrip", "second_patch_with_the_same_diff_differs", _first_difference(plain(p2), b))
+            elif canon(plain(d)) != canon(pd):
+                out.fail("roundtrip", "diff_changed_by_patching", _first_difference(plain(d), pd))
     except Exception as e:
         out.fail_exc("no_exception_patch", e)
     try:
